@@ -245,7 +245,7 @@ theorem afterRequest_waiting {sk : List (Int × Tlv)} {skb : Bytes} (h : await s
 
 theorem afterRequest_panic {op : Tlv} {sk : List (Int × Tlv)} {skb resp rest : Bytes} {unread : List Bytes}
     (h : await s.atEnd buf cs sk0 skb0 = .response op sk skb resp rest unread) (hr : resultExt op = none) :
-    (afterRequest lib c s buf cs sk0 skb0).outcome = .panic := by
+    (afterRequest lib c s buf cs sk0 skb0).outcome = .err .notLdapResult := by
   simp [afterRequest, h, hr]
 
 theorem afterRequest_refused {op : Tlv} {sk : List (Int × Tlv)} {skb resp rest : Bytes} {unread : List Bytes} {r : ResultExt}
@@ -419,7 +419,7 @@ theorem establish_answer (hm : c.mode = .startTls) (x : Await) (ha : answer s = 
     (∀ sk skb, x = .driverErr sk skb → (establish lib c s).outcome = .err .driverEnded) ∧
     (∀ sk skb, x = .waiting sk skb → (establish lib c s).outcome = stall c ∧ s.atEnd = .silent) ∧
     (∀ op sk skb resp rest unread, x = .response op sk skb resp rest unread →
-      (resultExt op = none → (establish lib c s).outcome = .panic) ∧
+      (resultExt op = none → (establish lib c s).outcome = .err .notLdapResult) ∧
       (∀ r, resultExt op = some r →
         (r.rc ≠ 0 → (establish lib c s).outcome = .err (.ldapResult r.rc)) ∧
         (r.rc = 0 → (establish lib c s).outcome =
